@@ -214,9 +214,24 @@ class Evaluator:
                             pass
                 elif k in ('acc', 'dtor', 'lambda'):
                     continue
-                elif k in ('call', 'ctor'):
-                    # calls are evaluated where their value is used; a statement-level call with
-                    # side effects is outside the fragment unless it is pure
+                elif k == 'call':
+                    # calls are evaluated where their value is used; a call on `this` to a non-const
+                    # sibling method is executed for its effect on the fields of `this`
+                    r = e.get('recv')
+                    callee = self.fb.funcs.get(e.get('f'))
+                    if isinstance(r, dict) and r.get('k') == 'this' and callee is not None and callee.has_cfg and not e.get('cmeth') and depth < self.max_depth:
+                        cenv = {k2: v2 for k2, v2 in env.items() if isinstance(k2, str) and k2.startswith('this.')}
+                        try:
+                            for p_, a_ in zip(callee.d.get('params', []), e.get('args', [])):
+                                cenv[('v', p_['id'])] = wrap(self.eval(a_, env, depth), (p_.get('t') or '').replace('const ', ''))
+                        except Unknown:
+                            continue
+                        res = self.run(callee, cenv, depth + 1)
+                        for k2, v2 in res['env'].items():
+                            if isinstance(k2, str) and k2.startswith('this.'):
+                                env[k2] = v2
+                    continue
+                elif k == 'ctor':
                     continue
             succ = blk['succ']
             if not succ:
